@@ -5,10 +5,12 @@ import (
 	"fmt"
 	"os"
 	"path/filepath"
+	"strings"
 
 	"github.com/compose-spec/compose-go/v2/cli"
 	"github.com/compose-spec/compose-go/v2/loader"
 	"github.com/compose-spec/compose-go/v2/types"
+	"gopkg.in/yaml.v3"
 
 	"verif/harness/internal/core"
 )
@@ -24,7 +26,7 @@ func runReuse(s *core.Shard, offset int) {
 	}
 	k := 0
 	for _, d := range docs {
-		for _, mode := range []string{"details/name-not-set", "details/name-set-not-imperatively", "details/name-imperative", "cli-options"} {
+		for _, mode := range []string{"details/name-not-set", "details/name-set-not-imperatively", "details/name-imperative", "cli-options", "details/pre-parsed-config", "details/pre-parsed-config-no-interpolation"} {
 			k++
 			if !s.Mine(offset + k) {
 				continue
@@ -65,9 +67,23 @@ func reuseCase(s *core.Shard, doc, mode string) (differs bool, detail string, fi
 			load = func() (*types.Project, error) { return po.LoadProject(context.Background()) }
 		} else {
 			details := types.ConfigDetails{WorkingDir: dir, ConfigFiles: []types.ConfigFile{{Filename: file}}, Environment: types.Mapping{"A": "1"}}
+			if strings.HasPrefix(mode, "details/pre-parsed-config") {
+				// the caller parsed the file itself and hands the dictionary over, several times
+				var parsed map[string]any
+				if err := yaml.Unmarshal([]byte(d.doc+"volumes:\n  data: {}\nsecrets:\n  tok: {environment: A}\n"), &parsed); err != nil {
+					s.Inconclusive("reuse: " + err.Error())
+					return
+				}
+				details.ConfigFiles = []types.ConfigFile{{Filename: file, Config: parsed}}
+			}
 			load = func() (*types.Project, error) {
 				return loader.LoadWithContext(context.Background(), details, func(o *loader.Options) {
 					switch mode {
+					case "details/pre-parsed-config":
+						o.SetProjectName("base", true)
+					case "details/pre-parsed-config-no-interpolation":
+						o.SetProjectName("base", true)
+						o.SkipInterpolation = true
 					case "details/name-set-not-imperatively":
 						o.SetProjectName("base", false)
 					case "details/name-imperative":
